@@ -299,14 +299,26 @@ func (w *worldA) runFault(rd reading, s0 wsx.Snapshot, base, handlersAlive int, 
 	}
 	defer xa.ReleaseReads()
 	deadline := time.Now().Add(wsx.Watchdog)
+	aID := ""
 	for {
 		if id, _ := fx.ClientByAddr(a.Local); id != "" {
+			aID = id
 			break
 		}
 		if time.Now().After(deadline) {
 			return core.V("harness|no-client-record", "no client record for the accepted socket")
 		}
 		time.Sleep(100 * time.Microsecond)
+	}
+	// A's record is the one found now, under ITS id: once A's socket is gone its local port can be
+	// given to a later connection of the same case (an operator logging in alongside), and a lookup
+	// by address alone would then take that operator's record for A's (seen three times in one
+	// thorough run at load 60: "authenticated as <a configured operator>" after a faulted first message)
+	recOfA := func() (string, *server.Client) {
+		if id, rec := fx.ClientByAddr(a.Local); id == aID {
+			return id, rec
+		}
+		return "", nil
 	}
 	w0 := a.Peer.Written()
 	for _, b := range c.Pre {
@@ -377,7 +389,7 @@ func (w *worldA) runFault(rd reading, s0 wsx.Snapshot, base, handlersAlive int, 
 	accepted := false
 	deadline = time.Now().Add(wsx.Watchdog)
 	for {
-		id, rec := fx.ClientByAddr(a.Local)
+		id, rec := recOfA()
 		if id == "" || a.Peer.ClosedByServer() {
 			break
 		}
@@ -400,7 +412,7 @@ func (w *worldA) runFault(rd reading, s0 wsx.Snapshot, base, handlersAlive int, 
 		if strict {
 			*dirty = true
 			return core.V("authenticated-without-credentials|"+lab, "a first message that does not name an operator with that operator's digest (%s: %s) left the connection AUTHENTICATED (as %q) when %s", c.Cls, rd.why, func() string {
-				if _, rec := fx.ClientByAddr(a.Local); rec != nil {
+				if _, rec := recOfA(); rec != nil {
 					return rec.Username
 				}
 				return "?"
@@ -412,7 +424,7 @@ func (w *worldA) runFault(rd reading, s0 wsx.Snapshot, base, handlersAlive int, 
 	if strict {
 		deadline = time.Now().Add(wsx.Watchdog)
 		for {
-			id, _ := fx.ClientByAddr(a.Local)
+			id, _ := recOfA()
 			if id == "" || a.Peer.ClosedByServer() || time.Now().After(deadline) {
 				break
 			}
@@ -465,7 +477,7 @@ func (w *worldA) runFault(rd reading, s0 wsx.Snapshot, base, handlersAlive int, 
 		*dirty = true
 		wsx.Obs("not-quiescent-after-A")
 	}
-	if id, rec := fx.ClientByAddr(a.Local); id != "" && !recordAuthenticated(rec) {
+	if id, rec := recOfA(); id != "" && !recordAuthenticated(rec) {
 		fx.TS.Clients.Delete(id)
 	}
 	// (what the fault did, for the evidence: did a write / a read of the teamserver really fail?)
@@ -700,6 +712,8 @@ func (w *worldC) refusedUnderFault(rc *rconn, user, pw string, queue int) *core.
 	login, _ := json.Marshal(wsx.LoginPkg(user, pw))
 	chat, _ := json.Marshal(wsx.ChatPkg(user, fmt.Sprintf("%s%d", refusedChat, mc.id)))
 	seg := append(wsx.ClientFrame(websocket.BinaryMessage, login, -1), wsx.ClientFrame(websocket.BinaryMessage, chat, -1)...)
+	// the record is this connection's only under the id it has now (its port may be reused once it is gone)
+	id0, _ := w.fx.ClientByAddr(rc.addr)
 	switch mc.fault {
 	case "cut":
 		cl.Peer.CutWritesAfter(mc.fk)
@@ -711,7 +725,7 @@ func (w *worldC) refusedUnderFault(rc *rconn, user, pw string, queue int) *core.
 	deadline := time.Now().Add(wsx.Watchdog)
 	for !cl.Peer.ClosedByServer() {
 		id, rec := w.fx.ClientByAddr(rc.addr)
-		if id == "" {
+		if id == "" || (id0 != "" && id != id0) {
 			break
 		}
 		if recordAuthenticated(rec) {
